@@ -7,8 +7,11 @@ RULE = ("src/main.cpp is compiled into the harness and the real `eph fetch <uri>
         "included): transport hints served by real Nodes with the publisher's identity on 127.0.0.1 (the genuine record; a "
         "record that decrypts to other bytes: one byte flipped, truncated, extended, unrelated; no record: negative "
         "acknowledgement; a closed port), control hints and control:// fallbacks served by a scripted control endpoint (the "
-        "payload; other bytes: flipped, truncated, extended, empty, unrelated; STATUS:OK without payload; STATUS:ERROR; "
-        "closed port), and the local daemon scripted the same way. Read back: exit code, the output file, which endpoint the "
+        "payload; other bytes: flipped, truncated, extended, empty, unrelated, or -- in a quarter of the cases -- bytes whose "
+        "SHA-256 agrees with the payload's in its XOR fold, byte sum, first two, last two, or first and last byte; STATUS:OK "
+        "without payload; STATUS:ERROR; "
+        "closed port), and the local daemon scripted the same way; in a fifth of the cases the manifest has expired on the CLI's "
+        "clock. Read back: exit code, the output file, which endpoint the "
         "CLI says served, how many control requests each endpoint received. Oracle (independent of the model: hashlib): "
         "an output file exists only with exit code 0 and its SHA-256 is the manifest's (= the payload's); the endpoint that "
         "served answered with the genuine payload (or 'written on the daemon host', then no file); no endpoint is asked "
@@ -43,15 +46,53 @@ def variant(rng, P, allow_empty):
     return b""
 
 
+NEAR = ["xor-fold", "sum", "first2", "last2", "ends"]
+
+
+def near_miss(rng, P, kind=None):
+    """other bytes whose SHA-256 agrees with the payload's on what a careless comparison looks at: the XOR of all digest bytes,
+       the byte sum, the first two bytes, the last two bytes, or the first and the last byte"""
+    want = hashlib.sha256(P).digest()
+
+    def fold(d):
+        x = 0
+        for b in d:
+            x ^= b
+        return x
+    kind = kind or rng.choice(NEAR)
+    base = bytes(rng.randrange(256) for _ in range(max(1, len(P))))
+    for k in range(200000):
+        cand = base + str(k).encode()
+        d = hashlib.sha256(cand).digest()
+        if cand != P and ((kind == "xor-fold" and fold(d) == fold(want)) or (kind == "sum" and sum(d) % 256 == sum(want) % 256)
+                          or (kind == "first2" and d[:2] == want[:2]) or (kind == "last2" and d[-2:] == want[-2:])
+                          or (kind == "ends" and d[0] == want[0] and d[-1] == want[-1])):
+            return cand
+    return base
+
+
 def generate(rng, tier):
     n = {"quick": 120, "search": 200, "thorough": 1200}[tier]
     cases = []
-    for ci in range(n):
+    # every kind of near miss on every kind of path, as the only path (so that it is certainly asked)
+    for kind in NEAR:
+        for path in (0, 1, 2, 3):
+            P = bytes(rng.randrange(256) for _ in range(rng.choice([1, 5, 64, 200])))
+            b = near_miss(rng, P, kind)
+            ints = [0, 0] + lp(P)
+            if path == 3:
+                ints += [0, 2] + lp(b)
+            else:
+                ints += [1, path, 1, 2] + lp(b) + [rng.choice([0, 1])]
+            cases.append({"ints": ints, "tag": f"nearmiss-{kind}-path{path}"})
+    for ci in range(n - len(cases)):
         ln = rng.choice([1, 2, 5, 63, 64, 65, 200, rng.randrange(1, 300)])
         P = bytes(rng.randrange(256) for _ in range(ln))
         mode = rng.choice([0, 0, 0, 1, 2, 3])
+        expired = 1 if rng.random() < 0.2 else 0
         nh = rng.choice([0, 1, 1, 2, 2, 3, 4, 5])
-        ints = [mode] + lp(P) + [nh]
+        ints = [mode, expired] + lp(P) + [nh]
+        tricky = rng.random() < 0.25          # this case's wrong payloads are near misses of the hash comparison
         meta = []
         for _ in range(nh):
             kind = rng.choice([0, 1, 1, 2])
@@ -62,19 +103,19 @@ def generate(rng, tier):
                 code = rng.choice([0, 1, 2, 2, 2, 2, 3])
             ints += [kind, prio, code]
             if code == 2:
-                b = P if rng.random() < 0.4 else variant(rng, P, allow_empty=(kind != 0))
+                b = P if rng.random() < 0.4 else (near_miss(rng, P) if tricky else variant(rng, P, allow_empty=(kind != 0)))
                 ints += lp(b)
         lcode = rng.choice([0, 1, 2, 2, 2, 3])
         ints += [lcode]
         if lcode == 2:
-            ints += lp(P if rng.random() < 0.5 else variant(rng, P, True))
-        cases.append({"ints": ints, "tag": f"mode{mode}"})
+            ints += lp(P if rng.random() < 0.5 else (near_miss(rng, P) if tricky else variant(rng, P, True)))
+        cases.append({"ints": ints, "tag": f"mode{mode}" + ("-expired" if expired else "") + ("-nearmiss" if tricky else "")})
     return cases
 
 
 def parse(ints):
     p = 0
-    mode = ints[p]; p += 1
+    mode = ints[p]; p += 2          # mode, expired
     ln = ints[p]; P = bytes(ints[p + 1:p + 1 + ln]); p += 1 + ln
     nh = ints[p]; p += 1
     hints = []
